@@ -368,6 +368,56 @@ func init() { replayKinds["sgxext"] = c13Replay }
 
 func TestC13(t *testing.T) {
 	replayDir(t, "C13")
+	// a caller that looks at members the library does not extract builds their identifiers from the exported ones the
+	// usual way - append(pcs.OidSgxExtension, 6) - before, between and after extractions: the exported identifiers, and
+	// what the extraction returns, stay what they are (everything below runs in a process where this has happened)
+	gen.Direct(t, "identifiers-derived-from-the-exported-ones", func(t *testing.T) {
+		exported := map[string]*asn1.ObjectIdentifier{"OidSgxExtension": &pcs.OidSgxExtension, "OidPPID": &pcs.OidPPID, "OidTCB": &pcs.OidTCB, "OidPCESvn": &pcs.OidPCESvn, "OidCPUSvn": &pcs.OidCPUSvn, "OidPCEID": &pcs.OidPCEID, "OidFMSPC": &pcs.OidFMSPC}
+		before := map[string]string{}
+		for n, o := range exported {
+			before[n] = o.String()
+		}
+		s := gen.NewStream(gen.Seed(), "c13oids")
+		for round := 0; round < 6; round++ {
+			for _, o := range exported {
+				for _, arc := range []int{6, 7, 5, 19, 1} {
+					derived := append(*o, arc)
+					_ = derived.String()
+				}
+			}
+			v := &gen.SgxValues{PceSvn: uint16(7 + round)}
+			s.Fill(v.PPID[:])
+			s.Fill(v.CpuSvn[:])
+			s.Fill(v.Fmspc[:])
+			s.Fill(v.PceID[:])
+			for i := range v.Comp {
+				v.Comp[i] = byte(s.Intn(256))
+			}
+			top := gen.SgxTree(v)
+			if round%2 == 1 {
+				// the platform-CA shape: the optional members 5 (type), 6 (platform instance id) and 7 (configuration)
+				top.Kids = append(top.Kids, gen.Seq(gen.OID(1, 2, 840, 113741, 1, 13, 1, 5), gen.Enum(1)), gen.Seq(gen.OID(1, 2, 840, 113741, 1, 13, 1, 6), gen.Octet(s.Bytes(16))))
+			}
+			gen.Eval()
+			got, vv := c13Extract(certWith(top.Encode(), 6, 5, true))
+			if !vv.Accepted() || c13Exact(v, got) != "" {
+				why := vv.String()
+				if vv.Accepted() {
+					why = c13Exact(v, got)
+				}
+				gen.Fail(t, gen.Violation{Key: "wellformed-after-derived-identifiers", Oracle: "a well-formed extension yields exactly the encoded values", Detail: fmt.Sprintf("after the caller built identifiers with append(pcs.Oid..., n) (round %d): %s", round, why), Replay: map[string]any{"kind": "sgxext-derived-oids"}})
+				return
+			}
+			for n, o := range exported {
+				if o.String() != before[n] {
+					gen.Fail(t, gen.Violation{Key: "exported-identifier-changed:" + n, Oracle: "a well-formed extension yields exactly the encoded values (the exported identifiers are constants)", Detail: fmt.Sprintf("pcs.%s was %s and is %s after append(pcs.Oid..., n) on OTHER exported identifiers", n, before[n], o.String()), Replay: map[string]any{"kind": "sgxext-derived-oids"}})
+					return
+				}
+			}
+			gen.NonTrivial("c13oids", round)
+		}
+		gen.Class("identifiers-derived-from-the-exported-ones")
+	})
 	gen.Prop(t, "unclassified-encodings-do-not-crash", gen.N(8000, 500000), c13OddityProp)
 	gen.Prop(t, "wellformed", gen.N(60000, 5000000), func(t *rapid.T) {
 		s := gen.NewStream(rapid.Uint64().Draw(t, "content"), "c13")
